@@ -889,8 +889,8 @@ def correspondence(ctx):
                     if ctx.thorough and rep > 0:
                         position = rng.randrange(0, 9)
                     slow = entry["plot"] or name in SLOW_OPS
-                    if slow and (ctx.thorough and rep > 2 or not ctx.thorough and si != 0):
-                        continue          # slow operations (altair, chainladder): one shape x 3 positions in quick
+                    if slow and (ctx.thorough and rep > 2 or not ctx.thorough and si > 1):
+                        continue          # slow operations (altair, chainladder): two shapes x 3 positions in quick
                     seed = rng.randrange(1 << 30)
                     for readonly in (False, True):
                         if slow and readonly and position != 0:
